@@ -13,7 +13,7 @@ COMPS = {2: set(["default", "chain", "chainx4"]), 1: set(["chain", "chainx4"])}
 
 def sig_of(e):
     c = e['cfg']
-    return "comp:%s:%s:%s:minin=%s:logmax=%s" % (c['set'], c['circuit'], c['comp'], c['minin'], c['logmax'])
+    return "comp:%s:%s:%s:minin=%s:logmax=%s:scaling=%s" % (c['set'], c['circuit'], c['comp'], c['minin'], c['logmax'], c.get('scaling', 4))
 
 
 def describe(e):
@@ -25,7 +25,7 @@ def run_composite(ctx):
         "composite circuits: sign / step / max / min with the shipped default composite sign polynomial (scale 2^90 only), twelve compositions of 1.5x-0.5x^3 and five of the degree-7 map followed by two cubic ones; Goldschmidt division and the inverse on the positive, negative and full domain with and without interval normalisation (2^-4 <= |x| <= 2^4); ring degree 2^9, scale 2^90 with two moduli per rescaling (standard and conjugate-invariant ring) and scale 2^45 with one; every usable input level; inputs include the end points of the stated domain",
         "the bootstrapper is the repository's decrypt-and-re-encrypt SecretKeyBootstrapper behind a recorder, announcing the minimum input levels lattigo's own bootstrappers announce (0 or 1 with one modulus per rescaling, 2 with two); a minimum level of 1 with two moduli per rescaling makes the Goldschmidt division fail (TLC shows it on the model, see DESIGN 11.3) and is not driven",
         "references are computed outside lattigo: Clenshaw recurrence on 256-bit floats for the composites, the ideal functions directly; floors: log2(scale) - logN - 12 bits on the worst slot (relative for 1/x), and the composite's own plaintext accuracy for the ideal function",
-        "mod 1 is covered through the bootstrapping check (C18), not here",
+        "mod 1: the three configurations of the repository's test (sine with arcsine, discrete and continuous cosine with double angle; K of the last reduced to 40) at half its ring degree, through EvaluateNew and EvaluateAndScaleNew with scaling 1, 2 and 1/2, prepared as that test prepares its input; reference: float64 sine / arcsine",
     ]
     info = json.loads(vrun(['c13', 'compsets'])[0].strip().splitlines()[0])
     d = scratch('c13-comp-mc')
@@ -48,7 +48,8 @@ def run_composite(ctx):
         cfgs = [json.dumps(rp['event']['cfg'])]
     else:
         sets = [dict(name=s['name'], maxlevel=s['maxlevel'], lpr=s['lpr'], logscale=s['logscale'], logn=s['logn'], ci=s['ci'],
-                     minins=MININS[s['lpr']], comps=COMPS[s['lpr']]) for s in info['sets']]
+                     minins=MININS[s['lpr']] if s['name'] != 'm45' else set(), comps=COMPS[s['lpr']] if s['name'] != 'm45' else set(),
+                     mod1=set(["sinarc", "cosd", "cosc"]) if s['name'] == 'm45' else set()) for s in info['sets']]
         dg = scratch('c13-comp-gen')
         stage_specs(dg)
         write_mc(dg, 'MC_CompositeGen', 'CompositeGen',
@@ -64,7 +65,9 @@ def run_composite(ctx):
             seen, keep = set(), []
             for c in allc:
                 k = (c['set'], c['circuit'], c['comp'], c['minin'], c['logmax'], tuple(c['sig']))
-                if c['sig'][0] < 0:     # inverse: every level with the cheapest sign polynomial, a seeded fifth of the rest
+                if c['circuit'] == 'mod1':
+                    keep.append(c)
+                elif c['sig'][0] < 0:     # inverse: every level with the cheapest sign polynomial, a seeded fifth of the rest
                     if c['comp'] == 'chain' or (c['circuit'] == 'invfull' and rnd.random() < 0.2):
                         keep.append(c)
                 elif k not in seen:
